@@ -339,12 +339,8 @@ func init() {
 							}
 						case *ast.IfStmt:
 							uny := underNotYield
-							if u, ok := ast.Unparen(x.Cond).(*ast.UnaryExpr); ok && u.Op == token.NOT {
-								if c, ok := ast.Unparen(u.X).(*ast.CallExpr); ok {
-									if id, ok := c.Fun.(*ast.Ident); ok && id.Name == "yield" {
-										uny = true
-									}
-								}
+							if impliesNotYield(x.Cond) {
+								uny = true
 							}
 							for _, st := range x.Body.List {
 								visit(st, inInner, uny)
@@ -400,4 +396,25 @@ func init() {
 				}
 			}
 		}})
+}
+
+// impliesNotYield: the condition can only hold when a call of the iterator's yield function
+// returned false: `!yield(x)` itself or a conjunction with such a conjunct (`A && !yield(x)`).
+func impliesNotYield(e ast.Expr) bool {
+	e = ast.Unparen(e)
+	switch x := e.(type) {
+	case *ast.BinaryExpr:
+		if x.Op == token.LAND {
+			return impliesNotYield(x.X) || impliesNotYield(x.Y)
+		}
+	case *ast.UnaryExpr:
+		if x.Op == token.NOT {
+			if c, ok := ast.Unparen(x.X).(*ast.CallExpr); ok {
+				if id, ok := c.Fun.(*ast.Ident); ok && id.Name == "yield" {
+					return true
+				}
+			}
+		}
+	}
+	return false
 }
